@@ -10,3 +10,4 @@ import GarbleVerif.Proofs.Renumber
 import GarbleVerif.Proofs.Mark
 import GarbleVerif.Proofs.BuildSound
 import GarbleVerif.Props.C04
+import GarbleVerif.Props.C10
